@@ -36,10 +36,11 @@ func (o *optimizer) optimizeAllFiles(printer FilePrinter) {
 
 		// 1. optimize file
 		log.Printf("visit file: %s\n", f.Filename)
-		o.optimizeImports(f)
 		o.optimizeDelayCall()
 		// o.optimizeBindCall()
 		o.etaReduction()
+		// last: a reduced closure may have held the only mention of a package
+		o.optimizeImports(f)
 
 		// 2. write file
 		log.Printf("write file: %s\n", f.Filename)
